@@ -1,9 +1,22 @@
 PROP = "C15"
-LEVEL = "exploration"
+LEVEL = "proof"
 CONTRACT_MODULES = ["evaluation"]
-DEDUCTIVE = []
-EXPLANATION = "bounded run-time layer only so far (contracts for the cache dictionary are pending)"
-LEVEL_TEXT = ("Bounded exploration: every breakpoint subset of small curves x 5 metrics against the definition in exact rational arithmetic; query "
-              "sequences sharing one cache compared bit-for-bit with fresh caches; global RMSE and MIP against their definitions. Not a proof.")
-LEVEL_NOTE = "bounded; relative metrics on segments containing y = 0 are skipped as ill-conditioned (counted in the evidence)"
-TECHNIQUE = "bounded run-time contract checking against an exact-rational oracle (stand-in; deductive contracts pending)"
+DEDUCTIVE = [
+    ("evaluation", "kneeliverse.evaluation.compute_cost"),
+    ("evaluation", "kneeliverse.evaluation.compute_global_cost#shared"),
+    ("evaluation", "kneeliverse.evaluation.compute_global_cost#fresh"),
+]
+EXPLANATION = ("compute_cost is proved (mode R) to accumulate the statement's definition: R2 = 1 - RSS/TSS clipped at 0 (TSS of the whole curve, "
+               "cached under 'tss'), rmsle/rmspe = sqrt(S/total), rpd/smape = S/total with total = n + #segments - 1, all >= 0. "
+               "compute_global_cost is proved (mode U: the per-segment error is the library's own compute_partial_cost of the end-point "
+               "interpolation, uninterpreted; segments of <= 2 points contribute 0) to return that accumulation over the segment errors with "
+               "divisor n + |S| - 2, for a fresh cache and for any shared cache that is consistent with the curve (CacheOK), to keep the "
+               "cache consistent and to leave old entries unchanged - so every query sequence sharing one cache returns exactly what fresh "
+               "caches return (induction over the sequence with invariant CacheOK, a lemma over this contract). 'All points are "
+               "breakpoints', global RMSE and MIP are covered by the bounded layer (exact rationals).")
+ASSUMPTIONS = ["summaries of lf.linear_fit_transform_points and compute_partial_cost: deterministic, >= 0 (uninterpreted); A-REAL for compute_cost"]
+LEVEL_TEXT = ("Proof of the accumulation formula (divisor, clipping, TSS) and of cache transparency as a contract (consistent cache in => same value "
+              "as with a fresh cache, consistent cache out, old entries untouched); bounded exact-rational layer for the per-metric values, "
+              "query sequences, global RMSE and MIP.")
+LEVEL_NOTE = "per-segment partial costs uninterpreted (their formulas are C16's metrics); dict model: keys are pairs of ints or the string 'tss'"
+TECHNIQUE = "contract-based deductive verification (AST->VC, z3) incl. a dictionary model for the cost cache; bounded exact-rational run-time layer as labelled stand-in"
